@@ -19,6 +19,7 @@ type connStatus struct {
 	*sync.RWMutex
 	cond    *sync.Cond
 	current connStatusValue
+	gen     uint64 // 再接続が完了した回数（ロックで保護）
 }
 
 func newConnState() *connStatus {
@@ -138,4 +139,26 @@ func (e *connStatus) waitUntil(ctx context.Context, status connStatusValue, hook
 	default:
 	}
 	return nil
+}
+
+// Generationは、再接続が完了した回数を返却します。
+func (e *connStatus) Generation() uint64 {
+	e.RLock()
+	defer e.RUnlock()
+	return e.gen
+}
+
+// GenerationWithoutLockは、ロック取得済みの呼び出し元のためのGenerationです。
+func (e *connStatus) GenerationWithoutLock() uint64 { return e.gen }
+
+// CompareAndSwapNewGenerationは、状態を入れ替えた場合に世代を進めるCompareAndSwapです。
+func (e *connStatus) CompareAndSwapNewGeneration(old, new connStatusValue) (swapped bool) {
+	e.Lock()
+	defer e.Unlock()
+	if !e.IsWithoutLock(old) {
+		return false
+	}
+	e.gen++
+	e.SwapWithoutLock(new)
+	return true
 }
